@@ -378,9 +378,160 @@ class Canonicaliser:
         try:
             fn.body = self.block(fn.body, modname, cls, fn)
             self.expr_inline(fn, modname, cls)
+            self.simplify_function(fn, modname, cls)
         finally:
             self.busy.discard(id(fn))
             self.done.add(id(fn))
+
+    # -- what inlining leaves behind
+    def simplify_function(self, fn, modname, cls):
+        """(1) `x = <A or B or None, by branch>; if x is not None: return x` becomes returns in the branches that built
+        something (the residue of inlining a helper that answers "handled / not handled" with a value or None);
+        (2) `self.TABLE[<constant>]` of a class-level literal dict reads as the entry; (3) a local bound once to a
+        callable expression (a lambda, `operator.add`) is replaced where it is called, applied lambdas are reduced and
+        operator.add / sub / mul / truediv(a, b) read as a + b …"""
+        changed = self._thread_optional_returns(fn.body)
+        table_hit = [False]
+        me = self
+
+        class Tables(ast.NodeTransformer):
+            def visit_Subscript(self, node):
+                self.generic_visit(node)
+                if isinstance(node.ctx, ast.Load) and isinstance(node.value, ast.Attribute) and isinstance(node.value.value, ast.Name) \
+                        and node.value.value.id in ("self", "cls") and cls is not None and isinstance(node.slice, ast.Constant) \
+                        and node.value.attr.isupper():
+                    try:
+                        kc, t = me.pm._class_const(cls, node.value.attr)
+                    except Exception:
+                        t = None
+                    if isinstance(t, ast.Dict):
+                        for k, v in zip(t.keys, t.values):
+                            if isinstance(k, ast.Constant) and k.value == node.slice.value:
+                                table_hit[0] = True
+                                return ast.copy_location(clone(v), node)
+                return node
+        Tables().visit(fn)
+        if not (changed or table_hit[0]):
+            return
+        # callable locals: `op = operator.add` / `op = lambda …` bound once, used only as `op(…)`
+        assigns = {}
+        for n in ast.walk(fn):
+            if isinstance(n, ast.Assign) and len(n.targets) == 1 and isinstance(n.targets[0], ast.Name):
+                assigns.setdefault(n.targets[0].id, []).append(n)
+        aliases = self._import_aliases(modname)
+        for name, defs in assigns.items():
+            if len(defs) != 1 or not isinstance(defs[0].value, (ast.Lambda, ast.Attribute)):
+                continue
+            v = defs[0].value
+            if isinstance(v, ast.Attribute) and not (isinstance(v.value, ast.Name) and aliases.get(v.value.id) == "operator"):
+                continue
+            uses = [x for x in ast.walk(fn) if isinstance(x, ast.Name) and x.id == name and isinstance(x.ctx, ast.Load)]
+            if not uses or not all(isinstance(getattr(u_, "_parent", None), ast.Call) and u_._parent.func is u_ for u_ in self._with_parents(fn, uses)):
+                continue
+            for u_ in uses:
+                u_._parent.func = clone(v)
+            self._drop_stmt(fn, defs[0])
+        opmap = {"add": ast.Add, "sub": ast.Sub, "mul": ast.Mult, "truediv": ast.Div}
+
+        class Fold(ast.NodeTransformer):
+            def visit_Call(self, node):
+                self.generic_visit(node)
+                f = node.func
+                if isinstance(f, ast.Lambda) and not node.keywords and len(node.args) == len(f.args.args) \
+                        and not any(isinstance(a, ast.Starred) for a in node.args) and not f.args.vararg and not f.args.kwarg:
+                    return ast.copy_location(substitute(clone(f.body), {p_.arg: a for p_, a in zip(f.args.args, node.args)}), node)
+                if isinstance(f, ast.Attribute) and isinstance(f.value, ast.Name) and aliases.get(f.value.id) == "operator" \
+                        and f.attr in opmap and len(node.args) == 2 and not node.keywords:
+                    return ast.copy_location(ast.BinOp(left=node.args[0], op=opmap[f.attr](), right=node.args[1]), node)
+                return node
+        Fold().visit(fn)
+        ast.fix_missing_locations(fn)
+
+    def _import_aliases(self, modname):
+        out = {}
+        tree = self.pm.modules[modname][1] if modname in self.pm.modules else None
+        for n in (tree.body if tree is not None else []):
+            if isinstance(n, ast.Import):
+                for a in n.names:
+                    out[(a.asname or a.name).split(".")[0]] = a.name
+        return out
+
+    @staticmethod
+    def _with_parents(fn, nodes):
+        for x in ast.walk(fn):
+            for ch in ast.iter_child_nodes(x):
+                ch._parent = x
+        return nodes
+
+    @staticmethod
+    def _drop_stmt(fn, stmt):
+        for x in ast.walk(fn):
+            for field in ("body", "orelse", "finalbody"):
+                b = getattr(x, field, None)
+                if isinstance(b, list) and any(y is stmt for y in b):
+                    b[:] = [y for y in b if y is not stmt] or [ast.Pass()]
+
+    def _thread_optional_returns(self, stmts):
+        changed = False
+        for s in stmts:
+            for field in ("body", "orelse", "finalbody"):
+                sub = getattr(s, field, None)
+                if isinstance(sub, list) and sub and isinstance(sub[0], ast.stmt) and not isinstance(
+                        s, (ast.FunctionDef, ast.AsyncFunctionDef, ast.ClassDef)):
+                    changed = self._thread_optional_returns(sub) or changed
+        i = 0
+        while i + 1 < len(stmts):
+            a, b = stmts[i], stmts[i + 1]
+            x = None
+            if isinstance(b, ast.If) and not b.orelse and len(b.body) == 1 and isinstance(b.body[0], ast.Return) \
+                    and isinstance(b.body[0].value, ast.Name) and isinstance(b.test, ast.Compare) and len(b.test.ops) == 1 \
+                    and isinstance(b.test.ops[0], ast.IsNot) and isinstance(b.test.left, ast.Name) \
+                    and isinstance(b.test.comparators[0], ast.Constant) and b.test.comparators[0].value is None \
+                    and b.test.left.id == b.body[0].value.id:
+                x = b.test.left.id
+            if x is None or not isinstance(a, ast.If):
+                i += 1
+                continue
+            leaves = []
+
+            def collect(node):
+                for blk in (node.body, node.orelse):
+                    if len(blk) == 1 and isinstance(blk[0], ast.If) and blk is node.orelse:
+                        if not collect(blk[0]):
+                            return False
+                        continue
+                    last = blk[-1] if blk else None
+                    if not (isinstance(last, ast.Assign) and len(last.targets) == 1 and isinstance(last.targets[0], ast.Name)
+                            and last.targets[0].id == x):
+                        return False
+                    v = last.value
+                    built = isinstance(v, ast.Call) and isinstance(v.func, ast.Name) and v.func.id[:1].isupper()
+                    none = isinstance(v, ast.Constant) and v.value is None
+                    if not (built or none):
+                        return False
+                    leaves.append((blk, last, built))
+                return True
+            used_later = any(isinstance(n, ast.Name) and n.id == x for st in stmts[i + 2:] for n in ast.walk(st))
+            if not collect(a) or used_later or not any(bt for _, _, bt in leaves):
+                i += 1
+                continue
+            for blk, last, built in leaves:
+                if built:
+                    blk[-1] = ast.copy_location(ast.Return(value=last.value), last)
+                else:
+                    blk[:] = blk[:-1]
+            # an `else:` left empty disappears; an emptied `if` body keeps a pass
+
+            def tidy(node):
+                if not node.body:
+                    node.body = [ast.Pass()]
+                if len(node.orelse) == 1 and isinstance(node.orelse[0], ast.If):
+                    tidy(node.orelse[0])
+            tidy(a)
+            del stmts[i + 1]
+            changed = True
+            i += 1
+        return changed
 
     def prepared(self, call, modname, cls, thin=False):
         r = self.resolve(call, modname, cls, thin)
